@@ -48,13 +48,12 @@ func newSleepTransaction(client *Client, sleepDuration time.Duration) *sleepTran
 			tLog.Debug("Deleted.")
 		})
 
-	client.group.Go(func() error {
-		select {
-		case <-client.groupCtx.Done():
-		case <-t.Done():
-		}
-		return nil
-	})
+	// No goroutine of client.group is started here: the client can be
+	// terminating already, and adding to an errgroup whose Wait() other API
+	// calls are returning from at the same moment is a WaitGroup misuse (panic
+	// "WaitGroup is reused before previous Wait has returned"). The
+	// transaction's timers are stopped when it finishes, and Sleep() itself
+	// watches client.groupCtx.
 	return t
 }
 
